@@ -47,6 +47,29 @@ theorem at_zero_cons {α : Type} [Inhabited α] (a : α) (l : List α) : Go.at (
 theorem slice_one_cons {α : Type} (a : α) (l : List α) : slice (a :: l) 1 (len (a :: l)) = l := by
   simp [slice, len]
 
+/-- a `range` loop without state that returns `f x` at the first element satisfying `p` -/
+theorem forRangeFrom_find {α ρ : Type} (p : α → Bool) (f : α → ρ) (xs : List α) (i : Int) :
+    forRangeFrom (fun _ x () => if p x then Ctl.ret (f x) else Ctl.next ()) i xs ()
+      = match xs.find? p with
+        | some x => Done.ret (f x)
+        | none => Done.fin () := by
+  induction xs generalizing i with
+  | nil => simp [forRangeFrom]
+  | cons x xs ih =>
+    simp only [forRangeFrom, List.find?]
+    cases h : p x <;> simp [ih]
+
+/-- a `range` loop whose body always falls through ends normally -/
+theorem forRangeFrom_total {α σ ρ : Type} (body : Int → α → σ → Ctl σ ρ)
+    (h : ∀ i x s, ∃ s', body i x s = .next s') (xs : List α) (i : Int) (s : σ) :
+    ∃ s', forRangeFrom body i xs s = .fin s' := by
+  induction xs generalizing i s with
+  | nil => exact ⟨s, rfl⟩
+  | cons x xs ih =>
+    obtain ⟨s1, h1⟩ := h i x s
+    obtain ⟨s2, h2⟩ := ih (i + 1) s1
+    exact ⟨s2, by simp [forRangeFrom, h1, h2]⟩
+
 /-- a `range` loop that stores `f x` at the loop index into a slice of the same length computes
     `map f` and never indexes out of range -/
 theorem forRangeFrom_set_map {α β ρ : Type} (f : α → β) (xs : List α) (pre : List β) (rest : List β)
